@@ -234,7 +234,7 @@ def run(ctx):
     mviol = design(ctx)
     wit = witnesses()
     plan = [(CFG_A, dict(g1_depth=6 if quick else 8, g1_noop_depth=4 if quick else 5, sim_num=250 if quick else 1500,
-                         sim_depth=30, sim_keep=2500 if quick else 20000)),
+                         sim_depth=30, sim_keep=1500 if quick else 20000)),
             (CFG_B, dict(g1_depth=0 if quick else 7, g1_noop_depth=0, sim_num=100 if quick else 1000, sim_depth=26,
                          sim_keep=1000 if quick else 15000))]
     if not quick:
@@ -254,6 +254,7 @@ def run(ctx):
         judge(ctx, cfg_of_init(b[0]), [b], "W%d" % i)
     if not quick and first:
         selftest(ctx, *first)
+    loop_stage(ctx)
     fetcher_stage(ctx)
     fired = ctx.cov.get("clauses_fired", {})
     idle = sorted(k for k in ("InOrderGapFree", "EachOnce", "BodyMatchesHeader", "WorkNeverLost", "NoDoubleAssign", "CompletesWithHonestPeer")
@@ -425,10 +426,78 @@ def fetcher_stage(ctx):
         raise vlib.Undecided("fetcher: design-level violation %s in the weakened run" % mviol)
 
 
+# ============================================================================ the fetchBodies/fetchParts loop (downloader.go)
+L_CFG_SAFE = ("SPECIFICATION LSpec\nINVARIANTS NeverGivesUp DoneMeansAll InOrderGapFree EachOnce BodyMatchesHeader WorkNeverLost "
+              "NoDoubleAssign NeverBroken\nCHECK_DEADLOCK FALSE\n")
+L_CFG_LIVE = ("SPECIFICATION LLive\nPROPERTY LoopCompletes\nINVARIANTS NeverGivesUp DoneMeansAll InOrderGapFree EachOnce BodyMatchesHeader "
+              "WorkNeverLost NoDoubleAssign NeverBroken\nCHECK_DEADLOCK FALSE\n")
+
+
+def loop_scenarios(quick, rnd):
+    """Chains with a run of empty blocks of every length 0..W+1 at the start, in the middle and at the end, several peer sets."""
+    out = []
+    peersets = [{"p1": "honest"}, {"p1": "stall", "p2": "honest"}, {"p1": "empty", "p2": "honest"}, {"p1": "liar", "p2": "honest"},
+                {"p1": "stall", "p2": "empty", "p3": "honest"}, {"p1": "partial", "p2": "honest"}, {"p1": "honest", "p2": "honest"}]
+    for w, maxp in ((2, 1), (3, 2)) if quick else ((2, 1), (2, 2), (3, 2), (4, 2), (4, 4)):
+        for run in range(0, w + 2):
+            for pre, post in ((0, 2), (1, 1), (2, 0), (1, 3)):
+                body = [1 + (i % 3) for i in range(pre)] + [0] * run + [1 + ((i + 1) % 3) for i in range(post)]
+                if not body:
+                    continue
+                sets = peersets if not quick else [peersets[0], peersets[rnd.randrange(1, len(peersets))]]
+                for ps in sets:
+                    for chunks in ([len(body)], [2, len(body)]) if not quick else ([len(body)],):
+                        out.append({"n": len(body), "body": body, "w": w, "maxp": maxp, "scripts": ps, "chunks": chunks})
+    return out
+
+
+def loop_stage(ctx):
+    """spec/DlLoop.tla (design) and the real fetchBodies/fetchParts loop of a partial Downloader with scripted peers."""
+    quick = ctx.quick
+    ctx.assumptions += ["loop stage: the real fetchBodies/fetchParts loop of a partially constructed Downloader (real queue, peer set, peer connections) "
+                        "runs against scripted peers (honest / stall / empty / liar / partial) with a consumer taking results as processFullSyncContent does; "
+                        "its schedule (goroutines, 100 ms ticker, 45 ms request TTL) is not controlled: the verdict uses only the order-robust observables -- "
+                        "the batches the consumer received and how the loop ended; every scenario has an honest peer"]
+    # design level: chains with runs of empty blocks around the window size, one and two peers
+    runs = [(1100, '"p1"', 4, 2), (1001, '"p1", "p2"', 4, 2)]
+    if not quick:
+        runs = [(code, ps, 4, 2) for code in (0, 1, 10, 11, 100, 101, 110, 111, 1000, 1001, 1010, 1011, 1100, 1101, 1110, 1111) for ps in ('"p1"', '"p1", "p2"')]
+        runs += [(10001, '"p1", "p2"', 5, 3), (11000, '"p1"', 5, 3), (10010, '"p1", "p2"', 5, 2)]
+    for code, ps, n, w in runs:
+        c = dict(name="L", N=n, body=code, W=w, maxp=2, peers=2, maxc=2)
+        text = consts(c, honest='"p1"', faults=2).replace('Peers = {"p1", "p2"}', "Peers = {%s}" % ps)
+        m = ctx.tlc_must("DlLoop", L_CFG_LIVE + text, name="LM_%d_%d" % (code, ps.count("p")), timeout=900)
+        if m.violated:
+            raise vlib.Undecided("loop stage: design-level violation %s for chain %s" % (m.violated, code))
+    scs = loop_scenarios(quick, random.Random(ctx.seed))
+    spath = ctx.path("loop_scenarios.ndjson")
+    vlib.write_ndjson(spath, scs)
+    trace = ctx.path("loop_trace.ndjson")
+    ctx.drive("dlloop", trace, opts={"beh": spath, "par": 16}, timeout=1200)
+    ctx.cov["traces_validated_against_impl"] += len(scs)
+    ctx.cov["evaluations"] += len(scs)
+    ctx.cov["loop_scenarios"] = len(scs)
+    result, _ = vlib.monitor(ctx, "DlQueue_Mon", "DlQueue_Mon.cfg", trace, name="LMon", behaviours=scs, replay_meta={"driver": "dlloop"})
+    ctx.cov["loop_events"] = result.get("events", 0)
+    ends = {}
+    for e in vlib.read_ndjson(trace):
+        if e.get("ev") == "LoopEnd":
+            ends[e["res"]["err"]] = ends.get(e["res"]["err"], 0) + 1
+    ctx.cov["loop_endings"] = ends
+    if ends.get("driver-timeout") and not ctx.violations:
+        raise vlib.Undecided("loop stage: %d scenarios did not end within 30 s" % ends["driver-timeout"])
+
+
 def replay(ctx, path):
     data = json.load(open(path))
     for i, b in enumerate(data["behaviours"]):
-        if data.get("meta", {}).get("driver") == "fetcher" or "forkat" in b[0]:
+        if data.get("meta", {}).get("driver") == "dlloop" or (isinstance(b, dict) and "scripts" in b):
+            spath = ctx.path("loop_scenarios.ndjson")
+            vlib.write_ndjson(spath, [b])
+            trace = ctx.path("loop_trace.ndjson")
+            ctx.drive("dlloop", trace, opts={"beh": spath})
+            vlib.monitor(ctx, "DlQueue_Mon", "DlQueue_Mon.cfg", trace, name="LMon", behaviours=[b], replay_meta={"driver": "dlloop"})
+        elif data.get("meta", {}).get("driver") == "fetcher" or "forkat" in b[0]:
             fetcher_judge(ctx, [b], tuple(b[0].get("bad", [])), "R%d" % i)
         else:
             judge(ctx, cfg_of_init(b[0]), [b], "R%d" % i)
